@@ -148,7 +148,8 @@ class Adapter:
         highs = list(args[1:])
         if self.none_mask:
             highs = [None if m else h for h, m in zip(highs, self.none_mask)]
-        return self.mod((args[0], highs))
+        low = None if self.cell.get('low_absent') else args[0]      # DTCWTInverse: a missing lowpass
+        return self.mod((low, highs))
 
     def apply(self, args):
         return util.flat_outputs(self.call(args))
